@@ -857,9 +857,25 @@ def lift_multi_byte(
                     w, a, term_to_add, CZFlag
                 )  # This ADD sets C and Z flags
 
+            # (n + C_in) is truncated to the element width: for n all ones and C_in set
+            # it wraps to zero and the main operation reports no carry/borrow although
+            # one is due.  Remember that case and fold it into C afterwards.
+            inner_wrapped = TempReg(TempBcdDigitCarry, width=1)
+            inner_wrapped.lift_assign(
+                il,
+                il.and_expr(
+                    1,
+                    initial_c_flag_expr,
+                    il.compare_equal(w, b, il.const(w, (1 << (8 * w)) - 1)),
+                ),
+            )
+
             # Execute the main operation and store its result in byte_op_result_holder.
             # The flags (C and Z) are set when main_op_llil is evaluated as part of this set_reg.
             byte_op_result_holder.lift_assign(il, main_op_llil)
+            il.append(
+                il.set_flag(CFlag, il.or_expr(1, il.flag(CFlag), inner_wrapped.lift(il)))
+            )
             current_byte_calculated_value_expr = byte_op_result_holder.lift(
                 il
             )  # = REG(TempLoopByteResult)
